@@ -7,14 +7,24 @@ pub struct Duration { pub nanos: u128 }
 impl Duration {
     pub const ZERO: Duration = Duration { nanos: 0 };
 
+    pub open spec fn from_secs_spec(secs: u64) -> Duration {
+        Duration { nanos: (secs as u128 * 1_000_000_000) as u128 }
+    }
+
+    #[verifier::when_used_as_spec(from_secs_spec)]
     pub const fn from_secs(secs: u64) -> (r: Duration)
-        ensures r.nanos == secs as u128 * 1_000_000_000,
+        ensures r == Self::from_secs_spec(secs),
     {
         Duration { nanos: secs as u128 * 1_000_000_000 }
     }
 
+    pub open spec fn from_millis_spec(millis: u64) -> Duration {
+        Duration { nanos: (millis as u128 * 1_000_000) as u128 }
+    }
+
+    #[verifier::when_used_as_spec(from_millis_spec)]
     pub const fn from_millis(millis: u64) -> (r: Duration)
-        ensures r.nanos == millis as u128 * 1_000_000,
+        ensures r == Self::from_millis_spec(millis),
     {
         Duration { nanos: millis as u128 * 1_000_000 }
     }
